@@ -52,6 +52,7 @@ type Lemma struct {
 	Splits   [][]string // case splits: each entry lists alternatives; the cross product gives sub-obligations
 	Bounded  string     // non-empty: the lemma is a bounded stand-in (text = the bound)
 	Tier     string     // "thorough": only checked in the thorough tier
+	NoRead   []string   // heap fields the unfolded functions must not read (read-frame obligation)
 }
 
 type KnownCarve struct {
@@ -127,7 +128,7 @@ func LoadSpecs(dir, pkgPath, pkgName string) (*Specs, error) {
 	var last *string // for continuation lines
 	keywords := map[string]bool{"opaque": true, "pred": true, "lemma": true, "vars": true, "unfold": true, "requires": true, "ensures": true,
 		"export": true, "property": true, "func": true, "known": true, "loop": true, "invariant": true, "decreases": true, "modifies": true,
-		"pure": true, "trusted": true, "assert": true, "pattern": true, "uses": true, "noinst": true, "bitvector": true, "split": true, "bounded": true, "tier": true}
+		"pure": true, "trusted": true, "assert": true, "pattern": true, "uses": true, "noinst": true, "bitvector": true, "split": true, "bounded": true, "tier": true, "noread": true}
 	for ln, l := range lines {
 		f := strings.Fields(l)
 		if len(f) == 0 {
@@ -197,6 +198,10 @@ func LoadSpecs(dir, pkgPath, pkgName string) (*Specs, error) {
 		case "split":
 			if curL != nil {
 				curL.Splits = append(curL.Splits, splitTop(rest, '|'))
+			}
+		case "noread":
+			if curL != nil {
+				curL.NoRead = append(curL.NoRead, strings.Fields(rest)...)
 			}
 		case "tier":
 			if curL != nil {
